@@ -29,7 +29,9 @@ RULE = ('Hypothesis draws histories of 4-14 steps over long-lived objects: parse
         '>= 1 successful one, or a module without revisions generated after one with. Hash seeds: 5 (quick) / 24 '
         '(thorough) PYTHONHASHSEED values x a generated corpus of module sets; each (seed, corpus) digest set is one case. '
         'Histories also present other editions of modules already seen (fixed module names, sequential identifiers), '
-        'modules absent in one step and present in a later one, another template / text filter for one call.')
+        'modules absent in one step and present in a later one, another template / text filter for one call. One '
+        'generation in five (and one bad compile() member in four) is of a module that parses but fails in code '
+        'generation: SYNTAX type, OID parent or AUGMENTS target declared nowhere.')
 ASSUMPTIONS = [
     'fresh instances are the reference: the property is a differential between a used and a brand-new object',
     'a code generator may normalise the tree it is given, but a repeated run on the same tree must give the same output',
@@ -53,6 +55,26 @@ BAD_SNIPPETS = ['X DEFINITIONS ::= BEGIN\n', 'X DEFINITIONS ::= BEGIN\nOBJECT-TY
 
 
 EDITION_NAMES = ('ED1-MIB', 'ED2-MIB', 'ED3-MIB')
+
+
+def _break(text, variant, v1):
+    """A well-formed module text turned into one that parses but fails in code generation: declarations whose SYNTAX
+    type, OID parent or AUGMENTS target is declared nowhere (they stay parked as forward references until the end of
+    the module and then fail)."""
+    acc = 'ACCESS read-only STATUS mandatory' if v1 else 'MAX-ACCESS read-only STATUS current'
+    parent = '{ 1 3 6 1 4 1 99998 %d }'
+    decls = []
+    if variant & 1:
+        decls.append('vfBrokenLeaf OBJECT-TYPE SYNTAX VfMissingType %s DESCRIPTION "x" ::= %s' % (acc, parent % 1))
+    if variant & 2:
+        decls.append('vfBrokenKid OBJECT-TYPE SYNTAX INTEGER %s DESCRIPTION "x" ::= { vfMissingParent 2 }' % acc)
+    if variant & 4 and not v1:
+        decls.append('vfBrokenRow OBJECT-TYPE SYNTAX VfBrokenRow MAX-ACCESS not-accessible STATUS current DESCRIPTION "x" '
+                     'AUGMENTS { vfMissingRow } ::= %s\nVfBrokenRow ::= SEQUENCE { vfBrokenCol INTEGER }' % (parent % 3))
+    if not decls:
+        decls.append('VfBrokenType ::= VfMissingBase')
+    cut = text.rstrip().rindex('END')
+    return text[:cut] + '\n'.join(decls) + '\n' + text[cut:]
 
 
 def _as_editions(mset):
@@ -104,6 +126,8 @@ def steps(draw):
             ms = _as_editions(ms)
         return {'k': 'gen', 'backend': 'json' if kind == 'gen-json' else 'pysnmp', 'mod': ms['modules'][0],
                 'genTexts': draw(st.booleans()), 'keepLayout': draw(st.integers(0, 2)) == 0,
+                # one generation in five is of a module that parses but cannot be resolved (semantic failure)
+                'broken': draw(st.integers(0, 7)) if draw(st.integers(0, 4)) == 0 else None,
                 # another template shipped with the package, for this call only
                 'template': draw(st.sampled_from((None, None, None, 'pysnmp/managed-objects-instances.j2'))) if kind == 'gen-pysnmp' else None}
     if kind == 'repeat':
@@ -114,7 +138,7 @@ def steps(draw):
                                                        sequential_names=edition)))
     if edition:
         ms = _as_editions(ms)
-    bad = draw(st.sampled_from((None, None, None, 'trunc', 'lex', 'absent')))
+    bad = draw(st.sampled_from((None, None, None, 'trunc', 'lex', 'absent', 'semantic')))
     return {'k': 'compile', 'mset': ms, 'bad': bad, 'ignoreErrors': draw(st.booleans())}
 
 
@@ -175,6 +199,8 @@ def _compile(comp_factory, step):
         texts[names[0]] = texts[names[0]][:len(texts[names[0]]) // 2]
     elif step['bad'] == 'lex':
         texts[names[0]] = texts[names[0]].replace('::=', '::= $', 1)
+    elif step['bad'] == 'semantic':
+        texts[names[0]] = _break(texts[names[0]], 1 + len(texts[names[0]]) % 7, False)
     elif step['bad'] == 'absent':
         del texts[names[0]]      # no source holds it in this step (a later step may find it again)
     written = {}
@@ -264,6 +290,9 @@ def history_prop(case, rec):
                 rec.count('repeat.executed')
             else:
                 text = mibgen.render_simple(step['mod'])
+                if step.get('broken') is not None:
+                    text = _break(text, step['broken'], step['mod']['dialect'] == 'v1')
+                    rec.count('gen.semantically-broken')
                 tree = parserFactory(**(dl.smiV1 if step['mod']['dialect'] == 'v1' else dl.smiV2))().parse(text)[0]
                 last_gen = (step, tree)
             cg_old = old_json if step['backend'] == 'json' else old_py
@@ -274,7 +303,7 @@ def history_prop(case, rec):
                 rec.count('gen.other-template')
             if got != ref:
                 raise Violation('codegen-state-leak', 'step %d (%s): %s' % (i, step['backend'], _diff(got, ref)), case,
-                                {'step': i, 'text': mibgen.render_simple(step['mod'])})
+                                {'step': i, 'text': mibgen.render_simple(step['mod']), 'broken': step.get('broken')})
             has_rev = any(d['k'] == 'mi' and d['revisions'] for d in step['mod']['decls'])
             if has_rev:
                 seen_rev = True
